@@ -92,22 +92,18 @@ theorem validKV_host_te_cl : ValidKV (teKey, chunkedTok) = true ∧
 
 /-! ### a serialised request head is parsed back exactly -/
 
-def reqSkeleton (method uri : Bytes) (major minor : Nat) (host : Bytes) : Msg :=
-  { isReq := true, method, url := uri, major, minor, code := 0, status := [], host, te := [], cl := 0,
-    hdr := [], body := none, trailer := none }
-
 /-- Any request line in the modelled domain followed by any list of valid fields and the blank
 line: the reader recovers method, target, version and exactly that field list, then frames the
 body by `readTransfer` of that list. `X` is everything after the blank line. -/
-theorem readRequest_serialized (method uri : Bytes) (maj min : Nat) (auth : Option Bytes) (hs : List KV) (X : Bytes)
+theorem readRequestHead_serialized (method uri : Bytes) (maj min : Nat) (auth : Option Bytes) (hs : List KV) (X : Bytes)
     (hm1 : method.isEmpty = false) (hm2 : method.all isTokenByte = true)
     (hm3 : (method == connectTok) = false) (hm4 : (method == priTok) = false)
     (hu : targetHost uri = some auth) (hmaj : maj < 10) (hmin : min < 10)
     (hv : ∀ kv ∈ hs, ValidKV kv = true) (hhost : ¬ (vals hs hostKey).length > 1) :
-    readRequest (method ++ [32] ++ uri ++ [32] ++ protoBytes maj min ++ crlf ++ fields hs ++ crlf ++ X) =
+    readRequestHead (method ++ [32] ++ uri ++ [32] ++ protoBytes maj min ++ crlf ++ fields hs ++ crlf ++ X) =
       liftE (readTransfer false method 200 maj min (shouldClose maj min (fixPragma hs)) (fixPragma hs)) fun t =>
-        finishBody (reqSkeleton method uri maj min (auth.getD ((vals hs hostKey).headD [])))
-          { t with hdr := del t.hdr hostKey } X := by
+        .complete (reqSkeleton method uri maj min (auth.getD ((vals hs hostKey).headD [])),
+          { t with hdr := del t.hdr hostKey }) X := by
   have hmtok : ∀ c ∈ method, isTokenByte c = true := fun c hc => List.all_eq_true.mp hm2 c hc
   have hub := targetHost_bytes uri auth hu
   have hnolf : ∀ c ∈ method ++ [32] ++ uri ++ [32] ++ protoBytes maj min, c ≠ 10 := by
@@ -123,12 +119,12 @@ theorem readRequest_serialized (method uri : Bytes) (maj min : Nat) (auth : Opti
       = (method ++ [32] ++ uri ++ [32] ++ protoBytes maj min) ++ crlf ++ (fields hs ++ crlf ++ X) := by
     simp
   rw [hform]
-  unfold readRequest
+  unfold readRequestHead
   rw [readLine_crlf _ _ hnolf]
   simp only
   rw [parseRequestLine_start method uri _ (fun c hc => (isTokenByte_ne c (hmtok c hc)).2.2.1) (fun c hc => (hub c hc).1)]
   simp only [hm1, hm2, parseHTTPVersion_proto maj min hmaj hmin, hm3, hm4, hu, readHeader_fields hs hv]
-  simp only [Bool.false_eq_true, Bool.not_true, Bool.or_self, if_false, hhost, reqSkeleton]
+  simp only [Bool.false_eq_true, Bool.not_true, Bool.or_self, if_false, hhost]
 
 /-! ### well-formed requests -/
 
@@ -291,7 +287,8 @@ theorem readRequest_wire_cl (m : Msg) (h : WFReq m) (hch : isChunked m.te = fals
   have hwire : wire m ++ rest = m.method ++ [32] ++ m.url ++ [32] ++ protoBytes m.major m.minor ++ crlf
       ++ fields (headOf m) ++ crlf ++ (b ++ rest) := by
     simp [wire, hch, headSection_eq, startLine, hreq, hb]
-  rw [hwire, readRequest_serialized m.method m.url m.major m.minor auth (headOf m) (b ++ rest)
+  unfold readRequest
+  rw [hwire, readRequestHead_serialized m.method m.url m.major m.minor auth (headOf m) (b ++ rest)
     hm1 hm2 hm3 hm4 hauth hmaj hmin hvalid (by rw [hvh]; exact vals_hostF_host_le m)]
   rw [fixPragma_id _ hpragma, hvh, hhostv]
   have hnd : (trimLWS (natDigits n)).isEmpty = false := by
@@ -407,7 +404,8 @@ theorem readRequest_wire_chunked (m : Msg) (h : WFReq m) (hch : isChunked m.te =
   have hwire : wireChunkedAs m cs ++ rest = m.method ++ [32] ++ m.url ++ [32] ++ protoBytes m.major m.minor ++ crlf
       ++ fields (headOf m) ++ crlf ++ (chunkStream cs ++ (fields (sortKV (m.trailer.getD [])) ++ crlf) ++ rest) := by
     simp [wireChunkedAs, headSection_eq, startLine, hreq]
-  rw [hwire, readRequest_serialized m.method m.url m.major m.minor auth (headOf m) _
+  unfold readRequest
+  rw [hwire, readRequestHead_serialized m.method m.url m.major m.minor auth (headOf m) _
     hm1 hm2 hm3 hm4 hauth hmaj hmin hvalid (by rw [hvh]; exact vals_hostF_host_le m)]
   rw [fixPragma_id _ hpragma, hvh, hhostv]
   rw [readTransfer_chunked false m.method 200 m.major m.minor _ (headOf m) chunkedTok htev (by decide) h11'
@@ -471,10 +469,6 @@ theorem readAllRequests_pipelined (ms : List Msg) (h : ∀ m ∈ ms, WFReq m) :
 
 /-! ### responses -/
 
-def resSkeleton (major minor code : Nat) (status : Bytes) : Msg :=
-  { isReq := false, method := [], url := [], major, minor, code, status, host := [], te := [], cl := 0,
-    hdr := [], body := none, trailer := none }
-
 /-- `m.status` is three digits (the code) and, optionally, a space and a reason phrase. -/
 def statusOK (m : Msg) : Bool :=
   let codeB := codeOf m.status
@@ -498,13 +492,13 @@ def connDropped (major minor : Nat) (hs : List KV) : List KV :=
 /-- Any status line `HTTP/a.b ddd[ reason]` followed by any list of valid fields and the blank line:
 the reader recovers version, status and exactly that field list, then frames the body by
 `readTransfer`. -/
-theorem readResponse_serialized (meth : Bytes) (m : Msg) (hs : List KV) (X : Bytes)
+theorem readResponseHead_serialized (meth : Bytes) (m : Msg) (hs : List KV) (X : Bytes)
     (hmaj : m.major < 10) (hmin : m.minor < 10) (hst : statusOK m = true)
     (hv : ∀ kv ∈ hs, ValidKV kv = true) :
-    readResponse meth (protoBytes m.major m.minor ++ [32] ++ m.status ++ crlf ++ fields hs ++ crlf ++ X) =
+    readResponseHead meth (protoBytes m.major m.minor ++ [32] ++ m.status ++ crlf ++ fields hs ++ crlf ++ X) =
       liftE (readTransfer true meth m.code m.major m.minor (shouldClose m.major m.minor (fixPragma hs))
               (connDropped m.major m.minor (fixPragma hs))) fun t =>
-        finishBody (resSkeleton m.major m.minor m.code m.status) t X := by
+        .complete (resSkeleton m.major m.minor m.code m.status, t) X := by
   simp only [statusOK, Bool.and_eq_true, beq_iff_eq] at hst
   obtain ⟨⟨⟨hc3, hcd⟩, hcv⟩, hnolf'⟩ := hst
   have hsnolf : ∀ c ∈ m.status, c ≠ 10 := by
@@ -539,7 +533,7 @@ theorem readResponse_serialized (meth : Bytes) (m : Msg) (hs : List KV) (X : Byt
     have := (isDigit_props d hd).2.1; simp [isOWS] at this; simp [this.1]
   have hdw : (m.status.dropWhile (· == 32)) = m.status := by rw [hdr]; simp [List.dropWhile, hd32]
   rw [hform]
-  unfold readResponse
+  unfold readResponseHead
   rw [readLine_crlf _ _ hnolf]
   have hcut : cut 32 (protoBytes m.major m.minor ++ [32] ++ m.status) = some (protoBytes m.major m.minor, m.status) := by
     have : protoBytes m.major m.minor ++ [32] ++ m.status = protoBytes m.major m.minor ++ 32 :: m.status := by simp
@@ -549,7 +543,7 @@ theorem readResponse_serialized (meth : Bytes) (m : Msg) (hs : List KV) (X : Byt
     simp [hc3]
   simp only [hc3', Bool.false_eq_true, if_false, hcd, Bool.not_true, parseHTTPVersion_proto _ _ hmaj hmin,
     readHeader_fields hs hv, hcv]
-  simp only [connDropped, dropConn, resSkeleton]
+  simp only [connDropped, dropConn]
   congr 1
 
 /-- Framing of a response that carries a body (not an answer to HEAD, not 1xx / 204 / 304):
@@ -658,7 +652,8 @@ theorem readResponse_wire_framed (meth : Bytes) (m : Msg) (h : WFRes meth m)
         ++ fields (headOf m) ++ crlf ++ (chunkStream cs ++ (fields (sortKV (m.trailer.getD [])) ++ crlf) ++ rest) := by
       simp [wireChunkedAs, headSection_eq, hstart]
     simp only [if_true]
-    rw [hwire, readResponse_serialized meth m (headOf m) _ hmaj hmin hst hvalid, fixPragma_id _ hpragma]
+    unfold readResponse
+    rw [hwire, readResponseHead_serialized meth m (headOf m) _ hmaj hmin hst hvalid, fixPragma_id _ hpragma]
     rw [readTransfer_chunked true meth m.code m.major m.minor _ _ chunkedTok
       (by rw [vals_connDropped _ _ _ _ cn.1]; exact htev) (by decide) h11'
       (by unfold connDropped; split
@@ -694,7 +689,8 @@ theorem readResponse_wire_framed (meth : Bytes) (m : Msg) (h : WFRes meth m)
       have hvalid : ∀ kv ∈ headOf m, ValidKV kv = true := by rw [hhead]; exact valid_e2e m hhdr
       have hrest' : rest = [] := hrest (by simp [lengthDelimited, hch, hcl])
       subst hrest'
-      rw [hwire, readResponse_serialized meth m (headOf m) _ hmaj hmin hst hvalid,
+      unfold readResponse
+      rw [hwire, readResponseHead_serialized meth m (headOf m) _ hmaj hmin hst hvalid,
         fixPragma_id _ (by rw [hhead]; exact hpr)]
       rw [readTransfer_res_eof meth m.code m.major m.minor _ _
         (has_connDropped _ _ _ _ cn.1 (by rw [hhead]; exact he_te))
@@ -725,7 +721,8 @@ theorem readResponse_wire_framed (meth : Bytes) (m : Msg) (h : WFRes meth m)
         cases hq : natDigits n with
         | nil => exact absurd hq (natDigits_ne_nil n)
         | cons c r => rfl
-      rw [hwire, readResponse_serialized meth m (headOf m) _ hmaj hmin hst hvalid, fixPragma_id _ hpragma]
+      unfold readResponse
+      rw [hwire, readResponseHead_serialized meth m (headOf m) _ hmaj hmin hst hvalid, fixPragma_id _ hpragma]
       rw [readTransfer_res_cl meth m.code m.major m.minor _ _ (natDigits n) n
         (has_connDropped _ _ _ _ cn.1 hte')
         (by rw [vals_connDropped _ _ _ _ cn.2.1]; exact hclv) hnd (parseCL_natDigits n hn63) hhd hnb]
